@@ -255,18 +255,18 @@ func (r *Report) Finish(verifDir string) int {
 	}
 	trusted := keys(r.Trusted)
 	cov := map[string]interface{}{
-		"explanation":       r.Explanation,
-		"obligations":       nObl,
-		"discharged":        nDis,
-		"known_findings":    nKnown,
-		"undischarged":      nViol,
-		"info_items":        nInfo,
-		"samples":           samples,
-		"checker_cmd":       r.CheckerCmd,
-		"trusted_base":      trusted,
-		"counts":            r.Counts,
+		"explanation":         r.Explanation,
+		"obligations":         nObl,
+		"discharged":          nDis,
+		"known_findings":      nKnown,
+		"undischarged":        nViol,
+		"info_items":          nInfo,
+		"samples":             samples,
+		"checker_cmd":         r.CheckerCmd,
+		"trusted_base":        trusted,
+		"counts":              r.Counts,
 		"obligations_by_rule": perRule,
-		"notes":             r.Notes,
+		"notes":               r.Notes,
 	}
 	ev := map[string]interface{}{
 		"property_id": r.Prop,
